@@ -3,7 +3,8 @@ open Conv
 open TypeEraseNext
 (* typeerasenext <stop|nostop> | tid tid ...
    events are rendered exactly as tools/units/stream_proto_te.py projects the implementation trace
-   (values / error codes are stripped by the projection: the driver's monitor checks them) *)
+   (values / error codes and the kind done / error of the cleanup completion are stripped by the
+   projection: the driver's monitor checks them) *)
 let str_kind = function KV -> "v" | KD -> "d" | KE -> "e"
 let str_result = function RVal -> "v" | RDone -> "d" | RErr -> "e"
 let b01 b = if b then "1" else "0"
@@ -22,7 +23,7 @@ let render = function
   | EConsNext r -> "!cons.next " ^ str_result r
   | EConsNextDtor -> "!cons.next.dtor"
   | EConsCleanupCtor -> "!cons.cleanup.ctor"
-  | EConsCleanup -> "!cons.cleanup d"
+  | EConsCleanup -> "!cons.cleanup"
   | EConsCleanupDtor -> "!cons.cleanup.dtor"
   | ESrcNextCtor -> "!src.next.ctor"
   | ESrcNextStart -> "!src.next.start"
@@ -30,7 +31,7 @@ let render = function
   | ESrcNextDtor -> "!src.next.dtor"
   | ESrcCleanupCtor -> "!src.cleanup.ctor"
   | ESrcCleanupStart -> "!src.cleanup.start"
-  | ESrcCleanupComplete -> "!src.cleanup.complete d"
+  | ESrcCleanupComplete -> "!src.cleanup.complete"
   | ESrcCleanupDtor -> "!src.cleanup.dtor"
   | EStreamDestroyed -> "!stream.destroyed"
   | EConsFinished -> "!cons.finished"
